@@ -484,11 +484,19 @@ def run(ctx):
                     if n_.k == 'bin' and _ia(n_.op):
                         l_ = strip(n_.a[0])
                         if l_ is not None and l_.k == 'mem':
-                            set_before.setdefault(l_.op, []).append(n_.a[1])
+                            set_before.setdefault(l_.op, []).append((n_.a[1], unique_defs(f_)))
         hdr_fields = set()
         for fld, rhss in set_before.items():
-            for r_ in rhss:
-                nm_set = set(x.op for x in _walk(r_) if x.k == 'mem')
+            for r_, sub_ in rhss:
+                def _mems(e_, depth=0):
+                    out_ = set()
+                    for x in _walk(e_):
+                        if x.k == 'mem':
+                            out_.add(x.op)
+                        elif x.k == 'var' and x.decl in sub_ and depth < 4:
+                            out_ |= _mems(sub_[x.decl], depth + 1)
+                    return out_
+                nm_set = _mems(r_)
                 if 'lead_size' in nm_set and 'header_length' in nm_set:
                     hdr_fields.add(fld)
         for facts_, tot_, nd_ in o.covers[:1]:
